@@ -157,8 +157,10 @@ pub fn guarded<F: FnOnce() -> Result<(), String>>(f: F) -> Verdict {
 
 #[derive(Clone, Copy, Default)]
 pub struct Opts {
-	/// Keep only length/hash of the output and count events instead of storing them.
+	/// Count events instead of storing them.
 	pub lean: bool,
+	/// Keep only length/hash of the output.
+	pub drop_out: bool,
 	/// Record (seq, total) marks for every successful write (C05).
 	pub marks: bool,
 	/// Measure allocations attributable to xt.
@@ -179,7 +181,7 @@ pub fn run_with(sc: &Scenario, opts: Opts) -> Outcome {
 		sc.writer.eintr.clone(),
 		sc.writer.flushfail,
 		log.clone(),
-		!opts.lean,
+		!(opts.lean || opts.drop_out),
 	);
 	let wst = writer.st.clone();
 	wst.borrow_mut().track_marks = opts.marks;
